@@ -199,6 +199,13 @@ func (w *c04World) round(kind byte) bool {
 		hung := hang && rec.Code >= 500 && by == "" && w.S.Count() > seen
 		if vh.IsSim && vh.Took(now.Sub(t0)) && !hung {
 			vh.FlagAnomaly()
+			if kind == 'u' && w.c.Active {
+				// the subject is down and virtual time passed while this request was under way (nothing in the
+				// scenario takes time): probe ticks may have found the subject down meanwhile, and a refused
+				// probe leaves no trace the model could read. No verdict from here on.
+				w.o.Inconcl("%s: %v of virtual time passed during a request to the downed subject with active probing on; the model cannot see refused probes - no verdict", w.ctx(), now.Sub(t0))
+				return false
+			}
 		}
 		w.o.Obs("requests", 1)
 		bySubject := by == w.S.Name || (kind == 'u' && rec.Code >= 500 && by == "") || hung
